@@ -654,8 +654,29 @@ func runC17(c *Ctx) {
 			q := c.field(spec.pkg, spec.typ, "quit")
 			wgf := c.field(spec.pkg, spec.typ, "wg")
 			okv := false
+			onceDo := c.method("sync", "Once", "Do")
 			for _, f := range ir.WithClosures(top) {
-				cq := find(f, closes(loadsField(q)))
+				// the close itself, or a sync.Once.Do of a literal that
+				// closes (a repeated Stop finds the channel closed already)
+				isClose := func(in ssa.Instruction) bool {
+					if closes(loadsField(q))(in) {
+						return true
+					}
+					if !callTo(onceDo)(in) {
+						return false
+					}
+					for _, cl := range closuresPassedTo(f, onceDo) {
+						if len(find(cl, closes(loadsField(q)))) == 1 {
+							for _, a := range argsOf(in) {
+								if mc, ok := ir.Strip(a).(*ssa.MakeClosure); ok && mc.Fn == ssa.Value(cl) {
+									return true
+								}
+							}
+						}
+					}
+					return false
+				}
+				cq := find(f, isClose)
 				w := find(f, withArg(callTo(c.method("sync", "WaitGroup", "Wait")), 0, fieldAddrOf(wgf)))
 				if len(cq) == 1 && len(w) == 1 {
 					bad := false
